@@ -68,7 +68,7 @@ def linear_room_oracle(fba, ref, closed):
     return st, val
 
 
-def check_model(net, bounds, P, stats, rich=False):
+def check_model(net, bounds, P, stats, rich=False, origin=None):
     import numpy as np
     from cobra.flux_analysis import moma, pfba, room
 
@@ -101,16 +101,29 @@ def check_model(net, bounds, P, stats, rich=False):
         model = families.build_model(mets, rxns)
         model.objective = {model.reactions.get_by_id(r): c for r, c in obj.items()}
         model.objective_direction = direction
+        if origin:
+            # the same model reached by another public route (mc/origins.py)
+            from .. import origins
+
+            try:
+                model = origins.derive(model, origin)
+            except origins.OriginUnavailable:
+                stats["origin_unavailable"] = stats.get("origin_unavailable", 0) + 1
+                continue
         c = np.array([obj.get(r, 0) for r in ids], dtype=float)
 
         def mk(method, **kw):
             case = {"net": [list(x) for x in net], "bounds": [[_j(a), _j(b)] for a, b in bounds],
                     "objective": obj, "direction": direction, "method": method}
+            if origin:
+                case["origin"] = origin
             case.update(kw)
             return case
 
         def bad(case, check, detail, **extra):
             s = {"method": case["method"], "check": check}
+            if origin:
+                s["origin"] = origin
             s.update(extra)
             out.append((s, case, f"{detail}\nmodel: {rxns}\ncase: {case}"))
 
@@ -383,6 +396,13 @@ def run_task(payload):
     for net in payload["nets"]:
         net = tuple(tuple(c) for c in net)
         for bounds in families.bound_assignments(net, P["d"], P["menu"]):
+            if payload.get("origins"):
+                from .. import origins
+
+                for origin in origins.ORIGINS:
+                    stats["models_from_origins"] = stats.get("models_from_origins", 0) + 1
+                    violations.extend(check_model(net, bounds, P, stats, False, origin))
+                continue
             stats["models"] = stats.get("models", 0) + 1
             violations.extend(check_model(net, bounds, P, stats, payload.get("rich", False)))
     return {"violations": violations[:300], "stats": stats}
@@ -394,7 +414,7 @@ def replay(case):
     if case.get("form") == "binding_zero":
         out = check_fraction0(net, bounds, {})
     else:
-        out = check_model(net, bounds, params("thorough"), {}, rich=True)
+        out = check_model(net, bounds, params("thorough"), {}, rich=True, origin=case.get("origin"))
     keys = [k for k in case if k not in ("net", "bounds")]
     return [{"sig": s, "detail": d} for s, c, d in out if all(c.get(k) == case[k] for k in keys)]
 
@@ -414,6 +434,14 @@ def explore(ctx):
     P0 = dict(nm=3, nr=4, K=(-1, 0, 1), d=1, menu=[(2, 10), (-10, -2)] + ([(3, 3)] if ctx.thorough else []))
     n4 = [n for n in families.networks(P0["nm"], P0["nr"], P0["K"]) if len(n) == 4]
     payloads += [{"params": P0, "nets": n4[i:i + 8], "fraction0": True} for i in range(0, len(n4), 8)]
+    # origins: networks with two boundary and one (thorough: also two) internal reactions, default bounds, reached by
+    # every other public route (mc/origins.py)
+    from .. import origins
+
+    PO = dict(nm=3, nr=4 if ctx.thorough else 3, K=(-1, 0, 1), d=0, menu=[])
+    no = [n for n in families.networks(PO["nm"], PO["nr"], PO["K"]) if len(n) >= 3
+          and sum(1 for c in n if families.is_boundary(c)) == 2]
+    payloads += [{"params": PO, "nets": no[i:i + 2], "origins": True} for i in range(0, len(no), 2)]
     stats = {}
     with ctx.pool(timeout=3000) as pool:
         for i, status, res in pool.imap(payloads):
@@ -433,6 +461,9 @@ def explore(ctx):
                 "(FBA, pFBA, default) x knock-out state (none, each single reaction)}; non-trivial = the exact secondary "
                 "optimum is non-zero" % (P["nm"], P["nr"], len(P["menu"]), P["d"]),
         "exhaustive": True, "networks": len(nets), "models": stats.get("models", 0), "exactlp_selftest_lps": n_self,
+        "origins_pass": "%d networks x %d origins (%s): %d models; route itself failed for %d (judged by C03/C10/C11/C12)" % (
+            len(no), len(origins.ORIGINS), ", ".join(origins.ORIGINS), stats.get("models_from_origins", 0),
+            stats.get("origin_unavailable", 0)),
         "fraction0_pass": "all %d four-reaction members x <=1 forced bound x every objective r_i - r_j whose fraction-0 "
                           "constraint is binding according to the exact oracle (%d models)" % (len(n4), stats.get("models_fraction0", 0)),
     })
